@@ -278,9 +278,16 @@ def run(ctx):
     ctx.note("sranges", [[float(s[0]), float(s[-1]), len(s)] for s in sranges(thorough)])
     accessor(ctx, letters)
     long_optimality(ctx)
+    from . import spell_common
+    spell_common.run(ctx, "C05")
+
 
 
 def replay(sub, case, p):
+    if case.get("kind") == "spelling":
+        from . import spell_common
+        spell_common.run(p, "C05")
+        return
     if case["kind"] == "gcv":
         y = np.asarray([case["y"]], dtype=np.float64)
         valid = y != case["nd"]
